@@ -690,7 +690,10 @@ impl World {
             for (fd, i) in maybe_failed {
                 let gone_now = dropped.contains(&fd);
                 let still_out = regs.iter().any(|(f, m)| *f == fd && m & 0x4 != 0);
-                if gone_now || still_out {
+                // … or, directly: the server made a write call on that descriptor during this poll (interposed `write`,
+                // inject.rs) — with nothing queued it makes none
+                let wrote = inject::write_calls(fd) > 0;
+                if gone_now || still_out || wrote {
                     self.clients[i].write_failed = true;
                 }
             }
